@@ -12,6 +12,7 @@ CONSTANTS
   MaxR = 1000000
   MaxMsg = 1000000
   PipeWriteLock = TRUE
+  C2ClosesPipe = TRUE
   EnvAtRest = FALSE
   History = FALSE
   Reduce = TRUE
